@@ -22,7 +22,11 @@ From MV Require Import Opt.OptComments.
 From MV Require Import Opt.OptNul.
 From MV Require Import Opt.OptBreaksDef.
 From MV Require Import Opt.OptBreaksAll.
+From MV Require Import Opt.OptSrcLib.
+From MV Require Import Gen.OptSrc.
 From MV Require Import Opt.OptSrcTop.
+From MV Require Import Opt.OptSrcGlue.
+From MV Require Import Opt.OptSrcFull.
 From MV Require Import Opt.OptSrcCompose.
 From MV Require Import Opt.OptSrcAll.
 Import ListNotations.
@@ -155,11 +159,13 @@ Print Assumptions C07_nul_truncates.
    otherwise it is a line of the scalar): wf_adj in Opt/YamlSpec.v. *)
 
 (* The kind of line break does not matter: whenever the tokenizer returns pairs on a text without
-   carriage returns it returns the same pairs on the text with every LF replaced by CR LF, and on
-   the text with every LF replaced by CR (any text, not only the YAML subset). *)
+   carriage returns it returns the same pairs on the text with every LF replaced by CR LF, on the
+   text with every LF replaced by CR, and on the text with every LF replaced by NEL (any text,
+   not only the YAML subset; one kind per text). *)
 Theorem C07_line_breaks_transparent : forall (T : str) r, no_cr T = true ->
   options_to_items T = Ok r ->
-  options_to_items (crlf T) = Ok r /\ options_to_items (cr_only T) = Ok r.
+  options_to_items (crlf T) = Ok r /\ options_to_items (cr_only T) = Ok r /\
+  options_to_items (nel_only T) = Ok r.
 Proof. exact line_breaks_transparent. Qed.
 Print Assumptions C07_line_breaks_transparent.
 
@@ -174,39 +180,86 @@ Theorem C07_yaml_agree_cr : forall b : block,
 Proof. exact yaml_agree_cr. Qed.
 Print Assumptions C07_yaml_agree_cr.
 
+Theorem C07_yaml_agree_nel : forall b : block,
+  wf_block b = true -> options_to_items (nel_only (print_block b)) = Ok (meaning_block b).
+Proof. exact yaml_agree_nel. Qed.
+Print Assumptions C07_yaml_agree_nel.
+
+(* mixing kinds inside one text is not transparent in general: LF LF (a blank line) against
+   CR LF (one line break) - the reason why the theorems above replace every line feed alike *)
+Theorem C07_mixed_breaks_refuted :
+  options_to_items mixed_lf = Ok [([97], [120; 10; 10; 121; 10])] /\
+  options_to_items mixed_cr_lf = Ok [([97], [120; 10; 121; 10])].
+Proof. exact mixed_breaks_refuted. Qed.
+Print Assumptions C07_mixed_breaks_refuted.
+
 (* ---- Round 3: the theorems for the code as it is written now ---- *)
 
-(* [options_to_items_src] is the tokenizer whose thirteen scanner functions (_scan_line_break,
-   _scan_to_next_token, _scan_plain_spaces, _scan_plain_scalar, _scan_flow_scalar and its three
-   helpers, _scan_block_scalar and its four helpers) and whose generator _tokenize are the Gallina
-   terms that gen/c07_src.py translates statement by statement from
-   myst_parser/parsers/options.py on every run (Gen/OptSrc.v: ..._src, tokenize_src), put under
-   the hand-written model of _to_tokens / options_to_items and over the hand-written StreamBuffer
-   primitives (Opt/OptSrcTop.v).  Opt/OptSrcProofs.v and Opt/OptSrcCompose.v prove each translated
-   function equal to its hand-written counterpart, hence: *)
-Theorem C07_src_refines : forall text : str, options_to_items_src text = options_to_items text.
-Proof. exact options_to_items_src_eq. Qed.
+(* [options_to_items_full] is the entry point as gen/c07_src.py translates it statement by statement
+   from myst_parser/parsers/options.py on every run (Gen/OptSrc.v): options_to_items, _to_tokens
+   (with its handler and TokenizeError.clone on the mark side), the generator _tokenize, the
+   thirteen scanner functions (_scan_line_break, _scan_to_next_token, _scan_plain_spaces,
+   _scan_plain_scalar, _scan_flow_scalar and its three helpers, _scan_block_scalar and its four
+   helpers) and the class StreamBuffer (new_stream_src, peek_src, prefix_src, forward_src,
+   get_position_src), whose methods the scanners call.  Nothing of options.py that takes part in
+   the result is hand-transcribed in this term; what the translation itself fixes is listed in
+   gen/c07_src.py (the representation of the StreamBuffer object as (index, line, column,
+   buffer[index:]), marks / messages / State.has_comments erased, tokens reduced to kind +
+   value + start index, fuel for the `while` loops).  Opt/OptSrcProofs.v, OptSrcCompose.v,
+   OptSrcGlue.v, OptSrcFull.v prove each translated function equal to its hand-written
+   counterpart, hence: *)
+Theorem C07_src_refines : forall text : str, options_to_items_full text = options_to_items text.
+Proof. exact full_refines. Qed.
 Print Assumptions C07_src_refines.
 
-Theorem C07_terminates_src : forall text : str, options_to_items_src text <> Raise OutOfFuel.
+Theorem C07_terminates_src : forall text : str, options_to_items_full text <> Raise OutOfFuel.
 Proof. exact terminates_src. Qed.
 Print Assumptions C07_terminates_src.
 
+Theorem C07_in_bounds_src : forall text : str, options_to_items_full text <> Raise IndexError.
+Proof. exact in_bounds_src. Qed.
+Print Assumptions C07_in_bounds_src.
+
 Theorem C07_only_tokenize_error_src : forall text : str,
-  (exists pairs, options_to_items_src text = Ok pairs) \/
-  (exists p, options_to_items_src text = Raise (TokenizeError p) /\ p <= N.of_nat (length text)).
+  (exists pairs, options_to_items_full text = Ok pairs) \/
+  (exists p, options_to_items_full text = Raise (TokenizeError p) /\ p <= N.of_nat (length text)).
 Proof. exact only_tokenize_error_src. Qed.
 Print Assumptions C07_only_tokenize_error_src.
 
 Theorem C07_yaml_agree_src : forall b : block,
-  wf_block b = true -> options_to_items_src (print_block b) = Ok (meaning_block b).
+  wf_block b = true -> options_to_items_full (print_block b) = Ok (meaning_block b).
 Proof. exact yaml_agree_src. Qed.
 Print Assumptions C07_yaml_agree_src.
 
 Theorem C07_nul_truncates_src : forall a b : str,
-  options_to_items_src (a ++ 0 :: b) = options_to_items_src a.
+  options_to_items_full (a ++ 0 :: b) = options_to_items_full a.
 Proof. exact nul_truncates_src. Qed.
 Print Assumptions C07_nul_truncates_src.
+
+(* class StreamBuffer as translated from the source = the primitives of the model *)
+Theorem C07_streambuffer_src : forall (s : stream) (k : nat) (text : str),
+  peek_src s k = peek s k /\ prefix_src s k = prefix s k /\ forward_src s k = forward s k /\
+  get_position_src s = (s_idx s, s_line s, s_col s) /\ new_stream_src text = new_stream text.
+Proof.
+  intros s k text. repeat split; [apply peek_src_eq | apply forward_src_eq].
+Qed.
+Print Assumptions C07_streambuffer_src.
+
+(* C07_mark_positions for the translated class *)
+Theorem C07_mark_positions_src : forall (text : str) (k : nat) (s : stream),
+  forward_src (new_stream_src text) k = Ok s ->
+  get_position_src s = (N.of_nat k, line_of (text ++ CHARS_END) k, col_of (text ++ CHARS_END) k).
+Proof. exact forward_positions_src. Qed.
+Print Assumptions C07_mark_positions_src.
+
+(* C07_clone_positions for the translated TokenizeError.clone and the translated handler of
+   _to_tokens (clone only when an offset is given): the mark reported with offsets is the mark
+   without offsets shifted by them, index kept *)
+Theorem C07_clone_positions_src : forall text lo co p,
+  clone_src (error_mark text 0 0 p) lo co = error_mark text lo co p /\
+  reraise_mark_src (error_mark text 0 0 p) lo co = error_mark text lo co p.
+Proof. intros. split; [apply clone_src_positions | apply reraise_mark_src_eq]. Qed.
+Print Assumptions C07_clone_positions_src.
 
 (* ---- non-vacuity ---- *)
 
